@@ -27,6 +27,8 @@ CHECKS = {
              text="(1) CrossHair confirms over all paths that the lowering rule raises the carried exception under the default flags. (2) For each placement (jit, scan, while, fori, cond, switch, map, grad, remat, custom_jvp/vjp, nested jit, depth-2 compositions) abstract lowering - no values, hence valid for all inputs - must raise the dedicated error, and running constructs that compile their body must raise too; plain jax.vmap over a site must raise. (3) seed(f): the encoded IR has no residual site at any depth and every drawn key derives from the key argument (a constant key = hidden randomness), or tracing raised the dedicated error. Level 'other': (2) executes the real lowering rule on the IR rather than a solver query.", ref="3 C14"),
  "C12": dict(technique="Jaxpr-to-SMT encoding of resample / systematic_resample in log-domain mode (z3 nonlinear real arithmetic): inverse-CDF characterisation, floor/ceil bound, copy faithfulness, estimate preservation",
              text="The real systematic_resample (logsumexp, cumsum, searchsorted's binary-search scan) is encoded with weights Log(P_i) and the offset u symbolic: indices in range, idx_j = inverse CDF of (j+u)/N, counts sum to N and lie in (N w_i - 1, N w_i + 1) for ALL weights and ALL u in (0,1); E[count_i] = N w_i as an interval-length identity; resample(): every output particle equals ONE input particle on all trace leaves, weights reset to 0, log_marginal_likelihood() unchanged, diagnostic weights = normalised old weights; categorical: the index site is categorical(logits = log weights up to a constant) with sample_shape (N,).", ref="3 C12"),
+ "C09": dict(technique="inductive kernel step: Jaxpr-to-SMT encoding of mh/mala/hmc from an arbitrary coherent trace (z3 NRA, case split on Cond conditions); oracle = Metropolis-Hastings rule from the reference density and jax.grad of an independent pure-JAX evaluator",
+             text="One kernel step with all internal randomness symbolic: the rejected result is the input trace term-for-term; the proposed trace equals the reference proposal (regenerate-from-prior with site laws for mh; x + step^2/2 grad + step*eps with one N(0,1) draw per COORDINATE for mala; L leapfrog steps from fresh per-coordinate momentum for hmc) and is coherent; the applied log acceptance threshold equals min(0, log MH ratio) of that proposal, including the mixture-indicator branch switch. Detailed balance is then the MH theorem.", ref="3 C09"),
 }
 NA = {}
 
